@@ -223,3 +223,28 @@ def run(ctx):
         v = env.get("rotation")
         rot_is_i = v is not None and norm(v) == loops[0].target.id
     ctx.ob("C39.R4", site, "rotation field is the loop index that produced the fit", rot_is_i, construct="rotation-index")
+    # rejection only after the exhaustive search
+    from ..cfg import CFG
+    cfg39 = CFG(fn)
+    raises = [n for n in walk_no_nested(fn) if isinstance(n, ast.Raise)]
+    ok = bool(raises) and bool(loops)
+    for r in raises:
+        if any(a is loops[0] for a in _anc39(r)):
+            ok = False   # gives up inside the search
+        elif not cfg39.must_pass(r, lambda n: n is loops[0]):
+            # a raise that does not come after the loop: only a pure domain check of the argument may do that
+            conds = [" ".join(norm(e).split()) for e, pol in sym.conjuncts(r, fn, {}) if pol]
+            dom = all(any(c.startswith(p) for p in ("v < 0", "v > 4294967295", "v >= 4294967296", "v >> 32", "not 0 <= v")) for c in conds) and bool(conds)
+            ok = ok and dom
+    early = [n for n in walk_no_nested(fn) if isinstance(n, ast.Return) and not any(a is loops[0] for a in _anc39(n))] if loops else []
+    ctx.ob("C39.R4", site, "a value is rejected only after all 16 rotations failed (every rotation of an 8-bit value is representable; no shortcut rejects before the search)", ok and not early, construct="reject-after-search",
+           node=raises[0] if raises else fn, detail="; ".join(" ".join(norm(x).split())[:70] for r in raises for x, _ in sym.conjuncts(r, fn, {})))
+
+
+def _anc39(n):
+    out = []
+    n = getattr(n, "_parent", None)
+    while n is not None:
+        out.append(n)
+        n = getattr(n, "_parent", None)
+    return out
